@@ -278,9 +278,11 @@ def handleStream (cmd : String) (args : List String) : Option String :=
       match ← mkReader backend data with
       | .error _ => pure "create-err"
       | .ok r0 =>
-        let content := r0.content
-        if p > content.length then pure "err" else
-        let (r, w) := copyLoop B (content.length + 2) { data := content, pos := p } []
-        pure s!"{showBytes w} {r.pos}"
+        -- the copy runs on the object of the requested backend itself (`copyLoopRd`; `copy_every_backend` says what it must give)
+        match r0.step (.seek p) with
+        | (.unit, r1) =>
+          let (r, w) := copyLoopRd B (r0.len + 2) r1 []
+          pure s!"{showBytes w} {r.pos}"
+        | _ => pure "err"
   | _, _ => none
 end Driver
